@@ -1147,7 +1147,33 @@ def _target_decoy_routing(ctx):
     ws = [n for n in ast.walk(r.node) if isinstance(n, ast.Call)
           and isinstance(n.func, ast.Attribute) and n.func.attr == "write"
           and len(n.args) == 1]
-    ctx.require(len(ws) >= 2, f"{r.qual}: output writes not found")
+    # one write inside  for w, m in zip(writers, (mask0, mask1)):  stands
+    # for one write per position of the display
+    pairs = []          # (receiver term, argument term, node)
+    for w in ws:
+        recv, arg = T3.of(w.func.value), T3.of(w.args[0])
+        zs = [x for x in walk_term(("tuple", (recv, arg)))
+              if isinstance(x, tuple) and x and x[0] == "zipelem"]
+        zargs = {z[2] for z in zs}
+        disp = None
+        if len(zargs) == 1:
+            za = next(iter(zargs))
+            lens = {len(a[1]) for a in za if a[0] in ("tuple", "list")}
+            if len(lens) == 1 and 1 <= next(iter(lens)) <= 4:
+                disp = (za, next(iter(lens)))
+        if disp is None:
+            pairs.append((recv, arg, w))
+            continue
+        za, n_ = disp
+        for i_ in range(n_):
+            def at(x, i_=i_, za=za):
+                if x[0] == "zipelem" and x[2] == za:
+                    a = za[x[1]]
+                    return a[1][i_] if a[0] in ("tuple", "list") else (
+                        "sub", a, ("const", i_))
+                return x
+            pairs.append((map_term(recv, at), map_term(arg, at), w))
+    ctx.require(len(pairs) >= 2, f"{r.qual}: output writes not found")
 
     def strip_store(t):
         while t[0] in ("store", "mut"):
@@ -1171,9 +1197,7 @@ def _target_decoy_routing(ctx):
 
     routes = []
     path_lists = set()
-    for w in ws:
-        recv = T3.of(w.func.value)
-        arg = T3.of(w.args[0])
+    for recv, arg, w in pairs:
         ps = positional(recv)
         src = mapped_over(prog, ps[0]) if ps else None
         names = None
@@ -1437,10 +1461,18 @@ def _retained_rows(ctx):
     gc = Calls(prog, g, T=gT)
     lists = {}
     maps = set()
-    for t_, _n in gc.calls("mokapot.utils.get_dataframe_from_records"):
+    GDR = "mokapot.utils.get_dataframe_from_records"
+    for t_, _n in gc.calls(GDR):
         b_ = bound_args(prog, t_) or {}
         if b_.get("column_mapping") is not None:
             maps.add(b_["column_mapping"])
+    for t_, _n in gc.calls("functools.partial"):
+        # functools.partial(get_dataframe_from_records, ..., mapping, ...)
+        if t_[2] and t_[2][0] in (("name", GDR), ("free", GDR)):
+            b_ = bound_args(prog, ("call", GDR, tuple(t_[2][1:]),
+                                   t_[3])) or {}
+            if b_.get("column_mapping") is not None:
+                maps.add(b_["column_mapping"])
     ctx.require(len(maps) == 1, f"{g.qual}: the column mapping handed to "
                 f"get_dataframe_from_records was not found ({len(maps)})")
     zz = dict_from_zip(next(iter(maps)))
